@@ -296,7 +296,7 @@ def obligations(tier):
     obs = []
     for name, grid, n, num, K in plan:
         for k in range(K):
-            obs.append(Ob("%s/s%02dof%02d" % (name, k, K), run, params=dict(grid=grid, n=n, num=num, shard=k, shards=K),
+            obs.append(Ob("%s/s%02dof%02d" % (name, k, K), run, params=dict(grid=grid, n=n, num=num, shard=k, shards=K, xcheck=(tier == "thorough"), xcheck_max=2),
                           kind="e2", replay=replay, budget=3000,
                           bounds=dict(grid="%dx%d" % (grid, grid), vertices=n, polygons="all simple, every vertex order",
                                       point="unbounded symbolic %s pair" % ("integer" if num == "int" else "real"))))
